@@ -48,14 +48,20 @@ def edge_int(rng, bits):
     return rng.choice([0, 1, 2 ** bits - 1, 2 ** (bits - 1), 2 ** (bits - 1) - 1, rng.getrandbits(bits), rng.getrandbits(bits)])
 
 
+ONE_BYTE_GREASE = [0x0b, 0x2a, 0x49, 0x68, 0x87, 0xa6, 0xc5, 0xe4]      # RFC 8701, one-byte code spaces
+
+
 def known_or_unknown(rng, enum_class, invalid_class, bits=16, unknown_rate=0.25):
     """(library item, numeric code)."""
     members = list(enum_class)
     known = {m.value.code for m in members}
     if invalid_class is not None and rng.random() < unknown_rate:
         for _ in range(50):
-            code = rng.choice(list(ref.GREASE) + [rng.randrange(2 ** bits) for _ in range(4)]) if bits == 16 else \
-                rng.choice([0x0b, 0x2a, 0xe4] + [rng.randrange(2 ** bits) for _ in range(4)])
+            # unknown two-byte numbers also from the range where they collide with the numbers of other, narrower code spaces
+            # (the one-byte GREASE values 0x0b, 0x2a, ...) and next to the GREASE pattern (0x0a1a is not GREASE)
+            code = rng.choice(list(ref.GREASE) + [rng.randrange(2 ** bits) for _ in range(4)] + ONE_BYTE_GREASE +
+                              [0x0a1a, 0x1a0a, 0x0a0b, rng.randrange(256)]) if bits == 16 else \
+                rng.choice(ONE_BYTE_GREASE + [rng.randrange(2 ** bits) for _ in range(4)])
             if code not in known:
                 return invalid_class(code), code
     member = rng.choice(members)
